@@ -273,6 +273,10 @@ def run_unit(unit, repo='/repo', tier='quick', seed=0):
         fails.append({'function': fn, 'kind': kname, 'site': site, 'site_text': site_text, 'clause_at': origin(line), 'clause': clause[:300],
                       'message': msg.split('\n')[0][:300], 'rendered': d.get('rendered', '')[:4000],
                       'obligation': '%s::%s::%s@%s' % (unit, fn, kname, site)})
+    if 'panicked at' in r['stderr'] or r['rc'] == 101:
+        k = r['stderr'].find('panicked at')
+        res['reason'] = 'verus crashed (tool defect, rc=%s): %s' % (r['rc'], ' '.join(r['stderr'][k:k + 300].split()))
+        return res
     if js == {} and not r['diags']:
         res['reason'] = 'verus produced no output (rc=%s): %s' % (r['rc'], r['stderr'][-500:])
         return res
